@@ -209,6 +209,15 @@ func callGetter(c c07Case, m *stun.Message) c07Outcome {
 		if errStr(err) != errStr(serr) {
 			return c07Outcome{"Parse batch returned " + errStr(err) + " but applying the getters in order gives " + errStr(serr), "BATCH-MISMATCH"}
 		}
+		var scerr error
+		for _, ck := range []stun.Checker{stun.Fingerprint, stun.MessageIntegrity(unHex(c.Key))} {
+			if scerr = ck.Check(m); scerr != nil {
+				break
+			}
+		}
+		if errStr(cerr) != errStr(scerr) {
+			return c07Outcome{"Check batch returned " + errStr(cerr) + " but applying the checkers in order gives " + errStr(scerr), "BATCH-MISMATCH"}
+		}
 
 		return c07Outcome{errStr(err) + "/" + errStr(cerr), fmt.Sprintf("%x|%d|%x|%d|%x", []byte(x.IP), x.Port, []byte(u), e.Code, e.Reason)}
 	}
